@@ -1,5 +1,6 @@
 import Coraza.Model.Operators
 import Coraza.Model.IpMatch
+import Coraza.Model.Regex
 /-! Driver engine `op`: `op <name> <arg> <value> => 0|1|ERR` (direct operator call, no negation) -/
 namespace Driver.Op
 open Coraza Coraza.Op
@@ -25,6 +26,11 @@ def eval (name : String) (arg v : Bytes) : Option Bool :=
   | "unconditionalMatch" => some true
   | "noMatch" => some false
   | "ipMatch" => if allAscii arg then some (ipMatch arg v) else Option.none
+  | "rx" =>
+    -- rx.go:65: "(?sm)" ++ argument; the modelled RE2 fragment over ASCII text
+    if allAscii arg && allAscii v then
+      (Coraza.Regex.parse {} (Bytes.ofString "(?sm)" ++ arg)).map (Coraza.Regex.search · v)
+    else Option.none
   | _ => Option.none
 
 /-- `none` = outside the modelled fragment; `some none` = factory error -/
